@@ -88,7 +88,7 @@ pub fn run(cfg: &Cfg, seed: u64) -> (Arc<World>, crate::sim::SimStats) {
                         Lat::Us(n) => n,
                         _ => 0,
                     };
-                    end = end.max(c.arrive_us + 2 * cfg.warm_us + l.max(if c.t_us >= HUGE[1] { 0 } else { c.t_us }) + 5000);
+                    end = end.max(c.arrive_us + 160_000 + 2 * cfg.warm_us + l.max(if c.t_us >= HUGE[1] { 0 } else { c.t_us }) + 5000);
                 }
             }};
         }
